@@ -249,6 +249,9 @@ func (s *Sandbox) manifestPut(ls *lua.LState) int {
 	s.log.Debug("Put manifest",
 		slog.String("script", s.name),
 		slog.String("image", r.r.CommonName()))
+	if s.dryRun {
+		return 0
+	}
 
 	m, err := manifest.New(manifest.WithOrig(sbm.m.GetOrig()))
 	if err != nil {
